@@ -58,6 +58,7 @@ THEOREMS = [
     "PEval.C20." + t
     for t in [
         "fromTask_agrees_with_source", "printed_form_parses_back", "printed_tables_complete",
+        "parsers_return_members_in_source", "parserReturnKinds_complete",
         "task_values_nodup", "frame_values_nodup", "frame_values_lower", "visibility_values_nodup",
         "sensor_values_nodup", "shape_values_nodup", "policy_names_upper", "alias_disjoint_values",
         "alias_keys_nodup", "alias_targets_members", "alias_fallback_member",
